@@ -451,6 +451,13 @@ class Model(object):
 
     def suspend(self, fr, f, a):
         ax = self.aux_framer(a)
+        if ax.done and ax.active is not None and (not ax.original or ax.main == (fr.name, f.name)):
+            # completed from outside (a done verb) while running here: fully exited, suspended frames resume
+            self.exit_all(ax)
+            if ax.original:
+                ax.main = None
+            fr.cut = None
+            return False
         if ax.done:
             if not self.needs(fr, f, a["needs"]):
                 return False
